@@ -1,6 +1,7 @@
 // `sudoku` sub-command (property C18): the specialised Sudoku solver through its public API.
 //   case ::= <81 chars, digits and '.'>            string input (parse_string, then solve_sudoku on the parsed grid)
-//          | g:<81 comma separated i32>            raw grid input (solve_sudoku on the grid as given; clues outside 0..9 possible)
+//          | g:<81 comma separated i32>            raw grid input (solve_sudoku on the grid as given; cells outside 0..9 possible:
+//                                                   no completion, the answer must be none and nothing may panic)
 //          | s:<any text without newline>          malformed string input (solve_sudoku_string / parse_string)
 // Output (one line): `<compared part> # <harness-only part>`
 //   compared part (must equal the model's line, ocaml/sudoku_cmd.ml):
@@ -14,7 +15,8 @@
 //     str=<grid>|none|-                 solve_sudoku_string on the same text (string cases with >= 28 clues, and parse errors)
 //   harness-only part: verify=0|1|- (SudokuSolver::verify_solution on the returned grid), api=same|diff|-
 //     (SudokuSolver::new(p).solve().solution against solve_sudoku(p), cases with >= 28 clues), nodes=<depth statistic>, SLOW (> 30 s)
-// `c0..eqs` are `-` when a clue lies outside 0..9 (SudokuCandidateSet::single debug_asserts there).
+// `c0..eqs` are reported for every grid, also with cells outside 0..9 (SudokuSolver::new gives such a cell the empty
+// candidate set; before the repair SudokuCandidateSet::single debug_asserted there).
 use selen::prelude::*;
 use selen::solvers::sudoku::{solve_sudoku, solve_sudoku_string, SudokuSolver};
 
@@ -141,7 +143,6 @@ fn clue_count(p: &[[i32; 9]; 9]) -> usize {
 }
 
 fn grid_part(p: [[i32; 9]; 9]) -> (String, String) {
-    let in_range = p.iter().flatten().all(|&v| (0..=9).contains(&v));
     let t0 = std::time::Instant::now();
     let res = solve_sudoku(p);
     let el = t0.elapsed().as_secs_f64();
@@ -150,15 +151,13 @@ fn grid_part(p: [[i32; 9]; 9]) -> (String, String) {
         None => "-",
     };
     let gen = general(&p);
-    let (c0, adv, c1, eqs) = if in_range {
+    let (c0, adv, c1, eqs) = {
         let mut s = SudokuSolver::new(p);
         let c0 = cand_masks(&s);
         let adv = s.apply_advanced_techniques();
         let c1 = cand_masks(&s);
         let eqs = eqs_from_debug(&s);
         (c0, if adv { "1" } else { "0" }.to_string(), c1, eqs)
-    } else {
-        ("-".to_string(), "-".to_string(), "-".to_string(), "-".to_string())
     };
     // SudokuSolver API (what solve_sudoku wraps): same grid expected; node statistics for the record
     let (api, nodes) = if clue_count(&p) >= 28 {
